@@ -1885,6 +1885,14 @@ pub fn apply(disk: &mut Disk, s: &Surgery) -> Result<(), String> {
             }
             disk.tables
                 .insert(tag_from_str("GSUB"), Rc::new(build_expansion(&gs, k, lookups, *variant)));
+            // A run that grows to the library's limit (16384 glyphs) is then positioned by every
+            // GPOS lookup of the font, and mark-to-mark positioning is quadratic in the number of
+            // consecutive marks by design: minutes of honest work, which the watchdog cannot
+            // tell from a hang. Large growth is therefore exercised without GPOS / kern.
+            if u64::from(k).saturating_pow(u32::from(lookups)) > 512 {
+                disk.tables.remove(&tag_from_str("GPOS"));
+                disk.tables.remove(&tag_from_str("kern"));
+            }
             Ok(())
         }
         Surgery::InstallContextFanout { glyph, records, depth, variant } => {
@@ -1896,6 +1904,11 @@ pub fn apply(disk: &mut Disk, s: &Surgery) -> Result<(), String> {
             }
             disk.tables
                 .insert(tag_from_str("GSUB"), Rc::new(build_context_fanout(*glyph, records, depth, *variant)));
+            // (as for InstallExpansion: the doubling variant can take the run to the limit)
+            if *variant / 2 % 4 == 2 && u64::from(records).saturating_pow(u32::from(depth)) > 512 {
+                disk.tables.remove(&tag_from_str("GPOS"));
+                disk.tables.remove(&tag_from_str("kern"));
+            }
             Ok(())
         }
         Surgery::InstallCff2Subrs { glyphs, nest } => {
